@@ -430,7 +430,7 @@ fn hostile_datagram(d: &Draw) -> Vec<u8> {
     let names = ["blksize", "timeout", "tsize", "windowsize", "BLKSIZE", "WindowSize", "blksize\u{0}", "unknown"];
     let long_a = "m".repeat(480);
     let long_euro: Vec<String> = (0..4).map(|k| format!("{}{}", "a".repeat(k), "\u{20ac}".repeat(160))).collect();
-    let files = ["probe.bin", "", "missing", "../x", "a/b/c", "probe.bin\u{0}x", "..", "docs/..", "a/b/../..", ".", "/", "\\", "probe.bin/..", long_a.as_str(), long_euro[0].as_str(), long_euro[1].as_str(), long_euro[2].as_str(), long_euro[3].as_str()];
+    let files = ["probe.bin", "pipe", "", "missing", "../x", "a/b/c", "probe.bin\u{0}x", "..", "docs/..", "a/b/../..", ".", "/", "\\", "probe.bin/..", long_a.as_str(), long_euro[0].as_str(), long_euro[1].as_str(), long_euro[2].as_str(), long_euro[3].as_str()];
     let mut base: Vec<u8> = match d.range("hostile.kind", 10) {
         0 | 1 | 2 | 3 => {
             // request with boundary option values
@@ -497,6 +497,8 @@ pub fn hostile(_tier: Tier, w: &Arc<World>) -> Scn {
     std::fs::write(dir.join("probe.bin"), &*probe_data).unwrap();
     let big = Arc::new(content(9000, 6));
     std::fs::write(dir.join("big.bin"), &*big).unwrap();
+    // a named pipe among the served files: whoever asks for it may wait forever, nobody else may
+    crate::world::make_fifo(&dir.join("pipe"));
     if d.chance("swarm.crowd", 1, 400) {
         // "from any number of sources": several hundred endpoints are served one after the other, then a probe
         let n = d.pick("swarm.crowd.size", &[300usize, 260, 520]);
